@@ -71,7 +71,7 @@ CHECKS = {
    note="Typed placements cover a rotating subset of pixel types to bound monomorphisation; dynamic placements cover all 13.",
    ref="DESIGN.md §3 C13"),
  "C14": dict(
-   technique="exhaustive enumeration of all views up to 8x8 (20x20 thorough) x all (start,size,parts) incl. invalid ones x both axes x split-of-split, with an exactly-once increment oracle for mutable parts",
+   technique="exhaustive enumeration of all views up to 8x8 (32x32 thorough) x all (start,size,parts) incl. invalid ones x both axes x split-of-split, with an exactly-once increment oracle for mutable parts",
    text="722k split requests every quick run over 9 view kinds: None <=> invalid; parts ordered, sizes floor/ceil, tags equal the band; through mutable parts every pixel is incremented exactly once and nothing else changes. 200k / 3M generated larger views.",
    note="Which parts get the extra pixel is not constrained (the statement does not say).",
    ref="DESIGN.md §3 C14"),
